@@ -3,6 +3,8 @@ package main
 import (
 	"fmt"
 	"sort"
+
+	"golang.org/x/tools/go/ssa"
 	"strings"
 )
 
@@ -52,7 +54,13 @@ func (ex *Executor) endSegment(st *State, fr *Frame, to string) {
 		if err != nil {
 			if strings.Contains(err.Error(), "unknown identifier") {
 				// the row talks about a variable that does not exist on this path (e.g. the loop variable on the
-				// exit path): it is not a candidate here; a row that is a candidate nowhere is reported as dead
+				// exit path): it is not a candidate here; a row that is a candidate nowhere is reported as dead.
+				// If the function has no variable of that name at all (renamed local), the contract lost its
+				// anchor: the unit is undecided, not violated.
+				if nm := unknownIdent(err.Error()); nm != "" && !hasSourceName(fr.fn, nm) {
+					ex.errf("anchor-missing %s: contract row %s refers to variable %q, which does not exist in the function any more", ex.unitKey, r.Name, nm)
+					ex.anchorLost = true
+				}
 				continue
 			}
 			ex.errf("%s: row %s: %v", ex.unitKey, r.Name, err)
@@ -303,4 +311,52 @@ func mentions(e *SExpr, names map[string]bool) bool {
 		}
 	}
 	return false
+}
+
+func unknownIdent(msg string) string {
+	i := strings.Index(msg, "unknown identifier \"")
+	if i < 0 {
+		return ""
+	}
+	rest := msg[i+len("unknown identifier \""):]
+	if j := strings.Index(rest, "\""); j >= 0 {
+		return rest[:j]
+	}
+	return ""
+}
+
+// hasSourceName: does the function (or an enclosing function, for closures) have a parameter, captured variable,
+// named result or local variable with this source name?
+func hasSourceName(fn *ssa.Function, name string) bool {
+	for f := fn; f != nil; f = f.Parent() {
+		for _, p := range f.Params {
+			if p.Name() == name {
+				return true
+			}
+		}
+		for _, v := range f.FreeVars {
+			if v.Name() == name {
+				return true
+			}
+		}
+		for _, b := range f.Blocks {
+			for _, ins := range b.Instrs {
+				switch x := ins.(type) {
+				case *ssa.DebugRef:
+					if o := x.Object(); o != nil && o.Name() == name {
+						return true
+					}
+				case *ssa.Alloc:
+					if x.Comment == name {
+						return true
+					}
+				case *ssa.Phi:
+					if x.Comment == name {
+						return true
+					}
+				}
+			}
+		}
+	}
+	return name == "rangeindex"
 }
